@@ -133,7 +133,7 @@ m = {
     "kind_free_text": "explicit TLA+ specification (spec/*.tla) checked with TLC; bound to the Go code by replaying TLC-generated vectors into the real API (harness/) and validating the recorded NDJSON traces with TLC (spec/UniversTrace.tla)"}],
  "checks": checks,
  "not_applicable": na,
- "notes": "Exit codes: 0 pass, 1 violation (VIOLATION line), 2 infrastructure failure (never a verdict). Every run ends with a binding self-test: one recorded field of the run's own trace is corrupted and the trace specification must reject it (else exit 2). VERIF_SEED seeds the seeded generators; exhaustive parts do not depend on it.",
+ "notes": "Exit codes: 0 pass, 1 violation (VIOLATION line), 2 infrastructure failure (never a verdict). Every run ends with a binding self-test: one recorded field of the run's own trace is corrupted and the trace specification must reject it (else exit 2). VERIF_SEED seeds the seeded generators; exhaustive parts do not depend on it. A check starts up to eight TLC processes (heap limits 4-6 GB each): run the checks one after another on a 64 GB machine.",
 }
 json.dump(m, open(os.path.join(V, "MANIFEST.json"), "w"), indent=1)
 print("claimed", [c["property_id"] for c in checks])
